@@ -1,14 +1,18 @@
 """
 C04 — DataFrames are immutable; transformations are pure and lazy.
 
-proof : lean/SqlframeModel/Props/C04.lean (frame / history / handles / lazy, over Gen.Purity + Gen.Operations)
-tie   : Gen.Purity regenerated from /repo (where display names are recorded, whether normalize works on
-        copies, copy()/GroupedData, static call graph to the engine); correspondence stream = scenarios of
-        public calls on the real objects with a *deep snapshot of every pre-existing DataFrame and Column
-        handle* before and after each call, and a proxy connection counting statements, compared with the
-        model's predicted set of mutated objects / engine traffic.
-search: the same snapshots are the specification check (nothing that existed may change), also for the
-        public API outside the Lean alphabet (joins, set operations, groupBy/agg, alias, hints, na.*, …).
+proof : lean/SqlframeModel/Props/C04.lean (frame / history / handles / lazy / hints, over Gen.Purity + Gen.Writes + Gen.Operations)
+tie   : Gen.Purity regenerated from /repo (where display names are recorded, whether normalize works on copies,
+        copy()/GroupedData, on which object `_resolve_pending_hints` / `_hint` / `alias` work, `limit`'s body, static call
+        graph to the engine) and Gen.Writes (static alias analysis: which DataFrame-owned state every member can write);
+        correspondence stream = scenarios of public calls on the real objects with a *deep snapshot of every pre-existing
+        DataFrame and Column handle* before and after each call, and a proxy connection counting statements, compared
+        with the model's predicted set of mutated objects / hint state / engine traffic.
+search: the same snapshots are the specification check (nothing that existed may change), also for the public API
+        outside the Lean alphabet (joins, set operations, groupBy/agg, na.*, …).  Observations are calls too: every new
+        DataFrame is observed twice at once and once more at the end; every call is made again at the end; at the end every
+        DataFrame is also compared with a *fresh twin* (the same calls replayed on new objects), itself and — for receivers —
+        through standard derivations (a join, a select).
 """
 from __future__ import annotations
 
@@ -17,6 +21,7 @@ import io
 import json
 import os
 import random
+import re
 import sys
 import typing as t
 import warnings
@@ -29,13 +34,26 @@ from vlib import Ctx, bag, plain
 ID = "C04"
 LEVEL = "proof"
 MODULES = ["SqlframeModel.Codec.C04", "SqlframeModel.Props.C04"]
-GEN = ["Operations", "Methods", "Clauses", "Purity"]
+GEN = ["Operations", "Methods", "Clauses", "Purity", "Writes"]
 SOURCES = ["SqlframeModel/Props/C04.lean", "SqlframeModel/Impl/C04.lean"]
 
-ACTIONS = ["collect", "count", "show", "head", "first", "isEmpty", "toPandas", "toArrow", "columns", "sql", "schema", "sql_opt"]
-EXTRA = ["join_name", "join_expr", "crossJoin", "union", "unionByName", "intersect", "exceptAll", "groupBy_agg", "groupBy_count", "agg", "alias",
-         "hint", "repartition", "dropna", "replace", "unpivot", "toDF", "cube", "na_fill", "dropDuplicates", "select_star", "select_none",
-         "withColumns", "cache", "transform", "createOrReplaceTempView", "sort", "filter_str", "selectExpr_like", "getattr", "alias_use", "alias_other"]
+ACTIONS = ["collect", "count", "show", "show1", "show_default", "head", "head1", "head_default", "first", "isEmpty", "toPandas", "toArrow",
+           "columns", "sql", "schema", "sql_opt", "explain", "printSchema"]
+EXTRA = ["join_name", "join_expr", "crossJoin", "union", "unionByName", "intersect", "exceptAll", "groupBy_agg", "groupBy_count", "agg",
+         "dropna", "replace", "unpivot", "toDF", "cube", "na_fill", "dropDuplicates", "select_star", "select_none",
+         "withColumns", "cache", "transform", "createOrReplaceTempView", "sort", "filter_str", "selectExpr_like", "getattr", "alias_use",
+         # schema-agnostic forms of the single-input transformations, usable on any receiver (also results outside the Lean alphabet)
+         "x_limit_big", "x_limit2", "x_distinct", "x_orderBy", "x_where", "x_select1", "x_withColumn", "x_drop_last", "x_rename", "x_copy"]
+# (method, hint name, parameter): partition hints go into the block's hint clause, join hints wait for a join
+HINTS = [("repartition", "REPARTITION", 3), ("coalesce", "COALESCE", 1), ("hint", "REBALANCE", None), ("hint", "BROADCAST", None), ("repartition", "REPARTITION", 2)]
+JOIN_HINT_NAMES = {"BROADCAST", "BROADCASTJOIN", "MAPJOIN", "MERGE", "SHUFFLEMERGE", "MERGEJOIN", "SHUFFLE_HASH", "SHUFFLE_REPLICATE_NL"}
+LAZY_OPS = ("transform", "getItem", "extra", "create", "hint", "alias")
+LAZY_OBS = ("columns", "sql", "sql_opt")  # read-only observations that must not reach the engine either
+OBS = ("columns", "sql", "rows", "last_op")  # what a DataFrame reports, and the state its next operation starts from
+# which public member(s) an event calls on its receiver (for exercising Gen.Writes against the running code)
+ACTION_METHOD = {"collect": "collect", "count": "count", "show": "show", "show1": "show", "show_default": "show", "head": "head", "head1": "head",
+                 "head_default": "head", "first": "first", "isEmpty": "isEmpty", "toPandas": "toPandas", "toArrow": "toArrow", "columns": "columns",
+                 "sql": "sql", "schema": "schema", "sql_opt": "sql", "explain": "explain", "printSchema": "printSchema"}
 
 
 class CountingConn:
@@ -69,10 +87,13 @@ _S = None
 def sess():
     global _S
     if _S is None:
+        import logging
+
         import duckdb
         from sqlframe.base.session import _BaseSession
         from sqlframe.duckdb import DuckDBSession
 
+        logging.disable(logging.WARNING)  # DuckDB drops hints at execution time and says so, once per statement
         _BaseSession._instance = None
         _S = DuckDBSession(conn=CountingConn(duckdb.connect(":memory:")))
     return _S
@@ -83,83 +104,144 @@ def sess():
 # ------------------------------------------------------------------------------------------------
 
 
+def _respell(rng: random.Random, step: dict) -> t.Tuple[str, t.List[t.List[str]]]:
+    """occasionally respell a column so that a display-name update happens"""
+    names: t.List[t.List[str]] = []
+    namer = "none"
+    if step["k"] == "select":
+        namer = "select"
+        spelled = []
+        for nm, e in step["items"]:
+            sp = nm.upper() if rng.random() < 0.5 else nm
+            spelled.append(sp)
+            names.append([nm, sp])
+        step["spell"] = spelled
+    elif step["k"] == "withColumn":
+        namer = "withColumns"
+        sp = step["n"].upper() if rng.random() < 0.5 else step["n"]
+        step["spell"] = sp
+        names.append([step["n"], sp])
+    elif step["k"] == "withColumnRenamed":
+        namer = "withColumnRenamed"
+        sp = step["b"].upper() if rng.random() < 0.5 else step["b"]
+        step["spell"] = sp
+        names.append([step["b"], sp])
+    return namer, names
+
+
+def gen_transform(rng: random.Random, kind: str, r: int, schemas: list, states: list, handles: list) -> t.Optional[dict]:
+    """one C01 step on model object r; appends the new object's schema / determinism state"""
+    sch = dict(schemas[r])
+    st = dict(states[r])
+    step = c01.gen_step(rng, kind, sch, st, False)
+    if step is None:
+        return None
+    namer, names = _respell(rng, step)
+    hs: t.List[int] = []
+    if step["k"] == "where" and handles and rng.random() < 0.5:
+        # use a user-held handle inside the predicate: handle.isNull() | handle.isNotNull()
+        cand = [i for i, (_, col) in enumerate(handles) if col in schemas[r]]
+        if cand:
+            hi = rng.choice(cand)
+            step = {"k": "where", "p": ("not", ("isNull", ("col", handles[hi][1]))), "handle": hi}
+            hs = [hi]
+    schemas.append(sch)
+    states.append(st)
+    return {"op": "transform", "r": r, "step": step, "namer": namer, "names": names, "hs": hs}
+
+
 def gen_scenario(rng: random.Random, n_events: int) -> dict:
     schema = {"x": "int", "y": "int", "s": "str"}
     rows = X.gen_table(rng, schema)
-    schemas = [dict(schema)]  # schema of each DataFrame object
+    schemas = [dict(schema)]  # schema of each model DataFrame object
+    states: t.List[dict] = [{"total": False}]  # is its row order total (then a truncating limit is deterministic)?
     handles: t.List[t.Tuple[int, str]] = []  # (object the handle was taken from, column)
-    lineage = [0]  # root ancestor... every object derives from object 0 here
-    events = []
+    events: t.List[dict] = []
     for _ in range(n_events):
         r = rng.randrange(len(schemas))
-        sch = dict(schemas[r])
         c = rng.random()
-        if c < 0.45:
-            kind = rng.choice(c01.KINDS)
-            st: t.Dict[str, t.Any] = {"total": False}
-            step = c01.gen_step(rng, kind, sch, st, False)
-            if step is None:
-                continue
-            if step["k"] == "limit" and 0 < step["n"] < c01.BIG:
-                step["n"] = c01.BIG
-            names: t.List[t.List[str]] = []
-            namer = "none"
-            # occasionally respell a column so that a display-name update happens
-            if step["k"] == "select":
-                namer = "select"
-                spelled = []
-                for nm, e in step["items"]:
-                    sp = nm.upper() if rng.random() < 0.5 else nm
-                    spelled.append(sp)
-                    names.append([nm, sp])
-                step["spell"] = spelled
-            elif step["k"] == "withColumn":
-                namer = "withColumns"
-                sp = step["n"].upper() if rng.random() < 0.5 else step["n"]
-                step["spell"] = sp
-                names.append([step["n"], sp])
-            elif step["k"] == "withColumnRenamed":
-                namer = "withColumnRenamed"
-                sp = step["b"].upper() if rng.random() < 0.5 else step["b"]
-                step["spell"] = sp
-                names.append([step["b"], sp])
-            hs = []
-            if step["k"] == "where" and handles and rng.random() < 0.5:
-                # use a user-held handle inside the predicate: handle.isNull() | handle.isNotNull()
-                cand = [i for i, (_, col) in enumerate(handles) if col in schemas[r]]
-                if cand:
-                    hi = rng.choice(cand)
-                    step = {"k": "where", "p": ("not", ("isNull", ("col", handles[hi][1]))), "handle": hi}
-                    hs = [hi]
-            events.append({"op": "transform", "r": r, "step": step, "namer": namer, "names": names, "hs": hs})
-            schemas.append(sch)
-        elif c < 0.65:
-            events.append({"op": "action", "r": r, "which": rng.choice(ACTIONS)})
-        elif c < 0.75:
-            col = rng.choice(list(sch))
+        rx = rng.randrange(64) if rng.random() < 0.3 else None
+        if c < 0.40:
+            # a limit is only interesting after a total order: make those more likely
+            kind = rng.choice(c01.KINDS + ["limit", "orderBy"]) if not states[r].get("total") else rng.choice(c01.KINDS + ["limit"] * 6)
+            ev = gen_transform(rng, kind, r, schemas, states, handles)
+            if ev is not None:
+                events.append(ev)
+        elif c < 0.60:
+            events.append({"op": "action", "r": r, "which": rng.choice(ACTIONS), "rx": rx})
+        elif c < 0.68:
+            col = rng.choice(list(schemas[r]))
             events.append({"op": "getItem", "r": r, "n": col, "via": rng.choice(["item", "attr", "F.col"])})
             handles.append((r, col))
-        elif c < 0.79:
+        elif c < 0.71:
             # a second DataFrame made directly from the session, same data, every column spelled differently
             events.append({"op": "create", "r": 0, "spell": rng.choice(["upper", "title"])})
+        elif c < 0.79:
+            m, name, n = rng.choice(HINTS)
+            events.append({"op": "hint", "r": r, "m": m, "name": name, "n": n, "rx": rx})
+            if rx is None:
+                schemas.append(dict(schemas[r]))
+                states.append(dict(states[r]))
+        elif c < 0.83:
+            events.append({"op": "alias", "r": r, "name": rng.choice(["t1", "t2"]), "rx": rx})
+            if rx is None:
+                schemas.append(dict(schemas[r]))
+                states.append(dict(states[r]))
         else:
-            # `rx`: with some probability the receiver is an earlier result outside the Lean alphabet (alias, hint,
-            # join, union, …) — those end in states where the operation wrapper does not start a new block
-            events.append({"op": "extra", "r": r, "which": rng.choice(EXTRA), "other": rng.randrange(len(schemas)),
-                           "rx": rng.randrange(64) if rng.random() < 0.4 else None})
+            # `rx`: with some probability the receiver is an earlier result outside the Lean alphabet (join, union, …)
+            events.append({"op": "extra", "r": r, "which": rng.choice(EXTRA), "other": rng.randrange(len(schemas)), "rx": rx})
     return {"schema": schema, "rows": rows, "events": events}
+
+
+def creates_model(ev: dict) -> bool:
+    return ev["op"] == "transform" or (ev["op"] in ("hint", "alias") and ev.get("rx") is None)
+
+
+def hint_text(ev: dict) -> str:
+    """as rendered, with the random sequence id a parameterless hint() names written R"""
+    if ev["n"] is None:
+        return ev["name"] if ev["name"] in JOIN_HINT_NAMES else f"{ev['name']}(R)"
+    return f"{ev['name']}({ev['n']})"
+
+
+def action_via(which: str) -> t.Any:
+    if which in ("collect", "toPandas", "toArrow", "count", "explain"):
+        return "direct"
+    if which in ("schema", "printSchema"):
+        return "none"
+    if which in ("show", "show1", "show_default", "head", "head1", "head_default", "first"):
+        n = {"show": 3, "show1": 1, "show_default": 20, "head": 2, "head1": 1, "head_default": 1, "first": 1}[which]
+        return {"step": {"s": {"limit": {"n": n}}}}
+    if which == "isEmpty":
+        return {"step": {"s": {"select": {"items": [["c", X.to_lean(("lit", True))]]}}}}
+    raise ValueError(which)
 
 
 def to_lean(i: int, sc: dict) -> dict:
     calls = []
     for ev in sc["events"]:
+        if ev.get("rx") is not None:
+            continue
         if ev["op"] == "transform":
             calls.append({"transform": {"r": ev["r"], "s": c01.step_to_lean(ev["step"]), "namer": ev["namer"], "names": ev["names"], "hs": ev["hs"]}})
+        elif ev["op"] == "action" and ev["which"] in ("sql", "sql_opt"):
+            calls.append({"render": {"r": ev["r"]}})
         elif ev["op"] == "action" and ev["which"] not in LAZY_OBS:
-            calls.append({"action": {"r": ev["r"], "k": 0}})
+            calls.append({"action": {"r": ev["r"], "k": 0, "via": action_via(ev["which"])}})
         elif ev["op"] == "getItem":
             calls.append({"getItem": {"r": ev["r"], "n": ev["n"]}})
+        elif ev["op"] == "hint":
+            calls.append({"hint": {"r": ev["r"], "m": ev["m"], "h": {"join": ev["name"] in JOIN_HINT_NAMES, "text": hint_text(ev), "cell": 0}}})
+        elif ev["op"] == "alias":
+            calls.append({"alias": {"r": ev["r"]}})
     return {"case": i, "table": X.table_to_lean(list(sc["schema"]), sc["rows"]), "calls": calls}
+
+
+def in_model(ev: dict) -> bool:
+    """does to_lean emit a call for this event?"""
+    if ev.get("rx") is not None or ev["op"] in ("extra", "create"):
+        return False
+    return not (ev["op"] == "action" and ev["which"] == "columns")
 
 
 # ------------------------------------------------------------------------------------------------
@@ -174,20 +256,56 @@ def _rows(df) -> t.Any:
         return f"uncollectable: {type(e).__name__}"
 
 
-def snap_df(df, rows: bool = True) -> dict:
-    with warnings.catch_warnings():
-        warnings.simplefilter("ignore")
-        return {
-            "columns": list(df.columns),
-            "_columns": list(df._columns),
-            "expr": df.expression.sql(dialect="duckdb"),
-            "display": dict(df.display_name_mapping),
-            "hints": [h.sql() for h in df.pending_hints],
-            "last_op": str(getattr(df, "last_op", None)),
-            "sql": df.sql(optimize=False),
-            # dropDuplicates(subset) keeps an arbitrary representative: its rows are not a function of the object
-            "rows": _rows(df) if rows else "not compared (nondeterministic by definition)",
-        }
+_HEX = re.compile(r"\b[0-9a-f]{32}\b")
+_TNAME = re.compile(r"\bt\d{3,9}\b")
+_ANAME = re.compile(r"AS [`\"]?a\d+[`\"]?\(")
+_RID = re.compile(r"\br[0-9a-f]{32}\b")
+_COMMENT = re.compile(r"/\*\+\s*(.*?)\s*\*/", re.S)
+
+
+def norm_sql(text: str) -> str:
+    """the statement up to the names that differ between two constructions of the same program: the counter in createDataFrame's
+    VALUES alias, the content hashes derived from it, random sequence ids and the random literal that keeps two identical CTEs apart"""
+    text = _RID.sub("R", text)
+    text = _HEX.sub("U", text)
+    text = _ANAME.sub("AS A(", text)
+    seen: t.Dict[str, str] = {}
+
+    def ren(m: t.Any) -> str:
+        return seen.setdefault(m.group(0), f"T{len(seen) + 1}")
+
+    return _TNAME.sub(ren, text)
+
+
+def hint_comments(text: str) -> t.List[str]:
+    return [_RID.sub("R", re.sub(r"\s+", " ", c).replace("( ", "(").replace(" )", ")").replace("`", "")) for c in _COMMENT.findall(text)]
+
+
+def blur_join_hint_targets(text: str) -> str:
+    """the statement with the argument of every join hint blanked (what a join hint names is the one thing the open known
+    finding H_hint_nodes_private is about)"""
+
+    def blur(m: t.Any) -> str:
+        body = re.sub(r"\b(" + "|".join(sorted(JOIN_HINT_NAMES, key=len, reverse=True)) + r")\s*\([^()]*\)", r"\1(*)", m.group(1))
+        return "/*+ " + body + " */"
+
+    return _COMMENT.sub(blur, text)
+
+
+def hint_state(df) -> dict:
+    """internal hint state, read without calling any sqlframe method: pending hints (join hints by name), whether each join hint
+    still names this DataFrame's own sequence id, and the hint clause of the open block"""
+    from sqlglot import exp
+
+    pend, targets = [], []
+    for h in df.pending_hints:
+        if isinstance(h, exp.JoinHint):
+            pend.append(str(h.this).upper())
+            targets.append(all(x.alias_or_name == df.sequence_id for x in h.expressions))
+        else:
+            pend.append(_RID.sub("R", h.sql()))
+    att = df.expression.args.get("hint")
+    return {"pending": pend, "targets": targets, "attached": _RID.sub("R", att.sql()) if att is not None else None}
 
 
 def snap_handle(c) -> dict:
@@ -208,6 +326,14 @@ def do_transform(df, ev: dict, handles: list, F):
     return c01.apply_step(df, s, F)
 
 
+def do_hint(df, ev: dict):
+    if ev["m"] == "repartition":
+        return df.repartition(ev["n"])
+    if ev["m"] == "coalesce":
+        return df.coalesce(ev["n"])
+    return df.hint(ev["name"].lower()) if ev["n"] is None else df.hint(ev["name"].lower(), ev["n"])
+
+
 def do_action(df, which: str):
     with warnings.catch_warnings():
         warnings.simplefilter("ignore")
@@ -215,13 +341,18 @@ def do_action(df, which: str):
             return bag([[plain(v) for v in r] for r in df.collect()])
         if which == "count":
             return df.count()
-        if which == "show":
+        if which in ("show", "show1", "show_default"):
             buf = io.StringIO()
             with contextlib.redirect_stdout(buf):
-                df.show(3)
+                if which == "show_default":
+                    df.show()
+                else:
+                    df.show(3 if which == "show" else 1)
             return len(buf.getvalue().split("\n"))
-        if which == "head":
-            return len(df.head(2))
+        if which in ("head", "head1"):
+            return len(df.head(2 if which == "head" else 1))
+        if which == "head_default":
+            return df.head() is None
         if which == "first":
             return df.first() is None
         if which == "isEmpty":
@@ -241,6 +372,11 @@ def do_action(df, which: str):
                 return f"raised {type(e).__name__}"
         if which == "schema":
             return [f.name for f in df.schema.fields]
+        if which in ("explain", "printSchema"):
+            buf = io.StringIO()
+            with contextlib.redirect_stdout(buf):
+                getattr(df, which)()
+            return len(buf.getvalue()) > 0
     raise ValueError(which)
 
 
@@ -269,16 +405,8 @@ def do_extra(df, other, which: str, F):
         return a if a.columns == b.columns else None
     if which == "agg":
         return df.agg(F.count(c0).alias("CNT"))
-    if which == "alias":
-        return df.alias("t1")
-    if which == "alias_other":  # a sibling takes the same alias name
-        return other.alias("t1")
-    if which == "alias_use":  # a reference qualified by the alias name, resolved through the session's registry
+    if which == "alias_use":  # a reference qualified by an alias name, resolved through the session's registry
         return df.select(F.col("t1." + c0))
-    if which == "hint":
-        return df.hint("broadcast")
-    if which == "repartition":
-        return df.repartition(3)
     if which == "dropna":
         return df.dropna(how="any", subset=[c0])
     if which == "replace":
@@ -302,7 +430,7 @@ def do_extra(df, other, which: str, F):
     if which == "cache":
         return df.cache()
     if which == "transform":
-        return df.transform(lambda d: d.limit(5))
+        return df.transform(lambda d: d.limit(c01.BIG))
     if which == "createOrReplaceTempView":
         df.createOrReplaceTempView("c04_view")
         return None
@@ -314,7 +442,77 @@ def do_extra(df, other, which: str, F):
         return df.select(F.col(c0).alias("A"), F.col(c0).alias("B"))
     if which == "getattr":
         return getattr(df, c0)
+    if which == "x_limit_big":
+        return df.limit(c01.BIG)
+    if which == "x_limit2":
+        return df.limit(2)
+    if which == "x_distinct":
+        return df.distinct()
+    if which == "x_orderBy":
+        return df.orderBy(*[F.col(c).asc_nulls_last() for c in dict.fromkeys(cols)])
+    if which == "x_where":
+        return df.where(F.col(c0).isNotNull() | F.col(c0).isNull())
+    if which == "x_select1":
+        return df.select(F.col(c0))
+    if which == "x_withColumn":
+        return df.withColumn("NEWC", F.lit(1))
+    if which == "x_drop_last":
+        return df.drop(cols[-1]) if len(set(cols)) > 1 else df.select(F.col(c0))
+    if which == "x_rename":
+        return df.withColumnRenamed(c0, "RENAMED")
+    if which == "x_copy":
+        return df.copy()
     raise ValueError(which)
+
+
+NONDET = ("dropDuplicates", "x_limit2")  # results whose rows are not a function of the receiver (an arbitrary representative / prefix)
+SENTINELS = ("s_join", "s_select")
+
+
+def do_sentinel(df, root, which: str, F):
+    """standard derivations through which internal state of a DataFrame becomes visible"""
+    if which == "s_join":
+        common = [c for c in df.columns if c in root.columns]
+        return df.join(root, on=common[:1] or None, how="left")
+    if which == "s_select":
+        return df.select(F.col(df.columns[0]))
+    if which == "s_limit":
+        return df.limit(c01.BIG)
+    raise ValueError(which)
+
+
+RAW = ("expr", "display", "hints", "last_op", "_columns")
+
+
+def raw_df(df) -> dict:
+    """internal state, read without calling any sqlframe method that does work (about 1 ms)"""
+    return {
+        "_columns": list(df.expression.named_selects),
+        "expr": df.expression.sql(),
+        "display": dict(df.display_name_mapping),
+        "hints": hint_state(df),
+        "last_op": getattr(getattr(df, "last_op", None), "name", None),
+    }
+
+
+def snap_df(df, rows: bool = True) -> dict:
+    """what the DataFrame reports (columns, statement, rows) and its internal state before and after reporting it"""
+    with warnings.catch_warnings():
+        warnings.simplefilter("ignore")
+        sn = raw_df(df)
+        sn["columns"] = list(df.columns)
+        sn["sql"] = df.sql(optimize=False)
+        if rows is not None:
+            # dropDuplicates(subset) keeps an arbitrary representative: its rows are not a function of the object
+            sn["rows"] = _rows(df) if rows else "not compared (nondeterministic by definition)"
+        sn["raw_after"] = raw_df(df)
+        return sn
+
+
+def light(df) -> dict:
+    """columns and statement only (the rows are a function of the statement)"""
+    sn = snap_df(df, None)
+    return {"columns": sn["columns"], "sql": norm_sql(sn["sql"])}
 
 
 def run_impl(sc: dict) -> dict:
@@ -328,267 +526,651 @@ def run_impl(sc: dict) -> dict:
         dfs = [X.make_df(s, sc["schema"], sc["rows"])]
         handles: t.List[t.Any] = []
         extras: t.List[t.Any] = []  # results of calls outside the Lean alphabet: watched, not numbered by the model
-        extras_det: t.List[bool] = []
-        probes: t.List[t.Tuple[int, t.Callable[[], t.Any], t.Any, bool]] = []  # (event, the call again, its first outcome, rows compared)
+        # per watched object: are its rows a function of the object, how to build it again from scratch, was it ever a receiver
+        det: t.Dict[t.Tuple[str, int], bool] = {("m", 0): True}
+        recipe: t.Dict[t.Tuple[str, int], t.Any] = {("m", 0): ("root",)}
+        used: t.Set[t.Tuple[str, int]] = {("m", 0)}
+        hrecipe: t.List[t.Tuple[t.Tuple[str, int], str, str]] = []
+        probes: t.List[t.Tuple[int, t.Callable[[], t.Any], t.Any]] = []  # (event, the call again, its first outcome)
+        cache: t.Dict[t.Tuple[str, int], dict] = {}  # the last full snapshot of each watched object
+        rawc: t.Dict[t.Tuple[str, int], dict] = {}  # its internal state when last looked at
 
-        def outcome(call: t.Callable[[], t.Any], det: bool, first: t.Any = None) -> t.Any:
+        def get(ref: t.Tuple[str, int]) -> t.Any:
+            return dfs[ref[1]] if ref[0] == "m" else extras[ref[1]]
+
+        def refs() -> t.List[t.Tuple[str, int]]:
+            return [("m", i) for i in range(len(dfs))] + [("x", i) for i in range(len(extras))]
+
+        def outcome(call: t.Callable[[], t.Any], first: t.Any = None) -> t.Any:
             try:
                 d = first if first is not None else call()
                 if not isinstance(d, BaseDataFrame):
                     return "no DataFrame"
-                sn = snap_df(d, det)
-                return {"columns": sn["columns"], "rows": sn["rows"]}
+                return light(d)
             except Exception as e:  # noqa
                 return f"raised {type(e).__name__}"
 
+        def adopt(ei: int, new: t.Any, ref: t.Tuple[str, int], d_: bool) -> dict:
+            """a DataFrame that did not exist before: observing it is a call too — twice in a row must agree (its rows are looked
+            at again at the end of the scenario)"""
+            det[ref] = d_
+            s1 = snap_df(new, d_)
+            s2 = snap_df(new, None)
+            for key in ("columns", "sql", "last_op"):
+                if s1[key] != s2[key]:
+                    out["problems"].append({"event": ei, "kind": "observe", "what": f"observing the new DataFrame twice (columns, sql, collect) gives two different answers ({key})",
+                                            "first": str(s1[key]), "second": str(s2[key])})
+                    break
+            cache[ref] = s1
+            rawc[ref] = s2["raw_after"]
+            return s1
+
+        adopt(-1, dfs[0], ("m", 0), True)
+
         for ei, ev in enumerate(sc["events"]):
-            before = [snap_df(d) for d in dfs] + [snap_df(d, det) for d, det in zip(extras, extras_det)]
-            n_model = len(dfs)
-            watched = dfs + extras
+            watched = refs()
+            before = {r: cache[r] for r in watched}
+            raw_before = {r: rawc[r] for r in watched}
             hbefore = [snap_handle(h) for h in handles]
             n0 = conn.n
             info: t.Dict[str, t.Any] = {"op": ev["op"]}
             err = None
+            recv_ref: t.Tuple[str, int] = ("m", ev["r"])
+            if ev.get("rx") is not None and extras:
+                recv_ref = ("x", ev["rx"] % len(extras))
+            recv = get(recv_ref)
+            used.add(recv_ref)
+            info["recv"] = watched.index(recv_ref)
+            new_ref: t.Optional[t.Tuple[str, int]] = None
             try:
-                if ev["op"] == "transform":
-                    new = do_transform(dfs[ev["r"]], ev, handles, F)
+                if ev["op"] in ("transform", "hint", "alias"):
+                    if ev["op"] == "transform":
+                        call = lambda r=recv, ev=ev: do_transform(r, ev, handles, F)  # noqa: E731
+                        d_ = det[recv_ref] and ev["step"]["k"] != "dropDuplicates"
+                    elif ev["op"] == "hint":
+                        call = lambda r=recv, ev=ev: do_hint(r, ev)  # noqa: E731
+                        d_ = det[recv_ref]
+                    else:
+                        call = lambda r=recv, ev=ev: r.alias(ev["name"])  # noqa: E731
+                        d_ = det[recv_ref]
+                    new = call()
                     info["engine"] = conn.n - n0
-                    # purity: the same call on the same receiver builds the same DataFrame again
-                    again = do_transform(dfs[ev["r"]], ev, handles, F)
-                    det = ev["step"]["k"] != "dropDuplicates"
-                    s1, s2 = snap_df(new, det), snap_df(again, det)
-                    for key in ("columns", "sql", "rows"):
-                        if s1[key] != s2[key]:
-                            out["problems"].append({"event": ei, "what": f"repeating the transformation on the same receiver built a different DataFrame ({key})", "first": str(s1[key])[:300], "second": str(s2[key])[:300]})
-                            break
-                    dfs.append(new)
-                    probes.append((ei, (lambda r=dfs[ev["r"]], ev=ev: do_transform(r, ev, handles, F)), {"columns": s1["columns"], "rows": s1["rows"]}, det))
+                    # (purity — the same call on the same receiver builds the same DataFrame again — is probed at the end of the scenario)
+                    if recv_ref[0] == "m" and ev.get("rx") is None:
+                        dfs.append(new)
+                        new_ref = ("m", len(dfs) - 1)
+                    else:
+                        extras.append(new)
+                        new_ref = ("x", len(extras) - 1)
+                    recipe[new_ref] = ("ev", ei, recv_ref, None)
+                    s1 = adopt(ei, new, new_ref, d_)
+                    probes.append((ei, call, {"columns": s1["columns"], "sql": norm_sql(s1["sql"])}))
                 elif ev["op"] == "action":
-                    a1 = do_action(dfs[ev["r"]], ev["which"])
+                    a1 = do_action(recv, ev["which"])
                     info["engine"] = conn.n - n0
-                    a2 = do_action(dfs[ev["r"]], ev["which"])
+                    a2 = do_action(recv, ev["which"])
                     if a1 != a2:
-                        out["problems"].append({"event": ei, "what": f"repeating {ev['which']} gave a different answer", "first": str(a1)[:200], "second": str(a2)[:200]})
+                        out["problems"].append({"event": ei, "kind": "repeat", "what": f"repeating {ev['which']} gave a different answer", "first": str(a1), "second": str(a2)})
                 elif ev["op"] == "getItem":
                     d = dfs[ev["r"]]
                     h = d[ev["n"]] if ev["via"] == "item" else (getattr(d, ev["n"]) if ev["via"] == "attr" else F.col(ev["n"]))
                     info["engine"] = conn.n - n0
                     handles.append(h)
+                    hrecipe.append((("m", ev["r"]), ev["n"], ev["via"]))
                 elif ev["op"] == "create":
                     f = str.upper if ev["spell"] == "upper" else str.title
                     new = X.make_df(s, {f(k): v for k, v in sc["schema"].items()}, sc["rows"])
                     info["engine"] = conn.n - n0
                     extras.append(new)
-                    extras_det.append(True)
+                    new_ref = ("x", len(extras) - 1)
+                    recipe[new_ref] = ("create", ev["spell"])
+                    adopt(ei, new, new_ref, True)
                 else:
-                    recv = dfs[ev["r"]]
-                    if ev.get("rx") is not None and extras:
-                        recv = extras[ev["rx"] % len(extras)]
+                    other = dfs[ev["other"]]
+                    used.add(("m", ev["other"]))
+                    call = lambda r=recv, o=other, w=ev["which"]: do_extra(r, o, w, F)  # noqa: E731
                     try:
-                        new = do_extra(recv, dfs[ev["other"]], ev["which"], F)
+                        new = call()
                     except Exception as e0:
                         if ev["which"] != "createOrReplaceTempView":
-                            probes.append((ei, (lambda r=recv, o=dfs[ev["other"]], w=ev["which"]: do_extra(r, o, w, F)), f"raised {type(e0).__name__}", True))
+                            probes.append((ei, call, f"raised {type(e0).__name__}"))
                         raise
                     info["engine"] = conn.n - n0
-                    if ev["which"] not in ("createOrReplaceTempView", "getattr", "groupBy_count") and isinstance(new, BaseDataFrame):
-                        det_x = ev["which"] != "dropDuplicates"
-                        probes.append((ei, (lambda r=recv, o=dfs[ev["other"]], w=ev["which"]: do_extra(r, o, w, F)), outcome(lambda: new, det_x, new), det_x))
+                    d_ = det[recv_ref] and det[("m", ev["other"])] and ev["which"] not in NONDET
                     if isinstance(new, BaseDataFrame) and new is not recv:
                         # keep it alive and watched, but the model does not number it
                         extras.append(new)
-                        extras_det.append(ev["which"] != "dropDuplicates")
+                        new_ref = ("x", len(extras) - 1)
+                        recipe[new_ref] = ("ev", ei, recv_ref, ("m", ev["other"]))
+                        s1 = adopt(ei, new, new_ref, d_)
+                        if ev["which"] not in ("getattr", "groupBy_count"):
+                            probes.append((ei, call, {"columns": s1["columns"], "sql": norm_sql(s1["sql"])}))
             except Exception as e:  # a follow-up that raises must still leave everything else intact
                 err = f"{type(e).__name__}: {str(e)[:160]}"
                 info["engine"] = conn.n - n0
             info["err"] = err
-            n_prev = len(before)
-            after = [snap_df(d) for d in watched[:n_model]] + [snap_df(d, det) for d, det in zip(watched[n_model:], extras_det)]
+            # every pre-existing object: its internal state now; what it reports is asked again of every object whose internal state
+            # moved (and of all of them at the end of the scenario)
+            raw_after = {r: raw_df(get(r)) for r in watched}
+            after = dict(before)
+            for r in watched:
+                if raw_after[r] != raw_before[r]:
+                    after[r] = snap_df(get(r), det[r])
+                    cache[r] = after[r]
+                    raw_after[r] = after[r]["raw_after"] if after[r]["raw_after"] == raw_after[r] else raw_after[r]
+                rawc[r] = raw_after[r]
             hafter = [snap_handle(h) for h in handles[: len(hbefore)]]
-            OBS = ("columns", "sql", "rows", "last_op")  # what a DataFrame reports, and the state its next operation starts from
-            info["objs"] = [i for i in range(n_prev) if any(before[i][k] != after[i][k] for k in OBS)]
-            info["internal"] = [i for i in range(n_prev) if before[i] != after[i] and i not in info["objs"]]
+            n_model = sum(1 for r in watched if r[0] == "m")
+            info["objs"] = [i for i, r in enumerate(watched) if any(before[r][k] != after[r][k] for k in OBS)]
+            info["internal"] = [i for i, r in enumerate(watched) if raw_before[r] != raw_after[r] and i not in info["objs"]]
             info["objs_model"] = [i for i in info["objs"] if i < n_model]
+            info["hints_model"] = [i for i, r in enumerate(watched) if i < n_model and raw_before[r]["hints"] != raw_after[r]["hints"]]
+            # which kind of state of which pre-existing object this call wrote: "own" (tree, display map, pending list, hint clause,
+            # last_op) or "hints" (only what a join-hint node names)
+            wrote = {}
+            for i, r in enumerate(watched):
+                b, a = raw_before[r], raw_after[r]
+                if b != a:
+                    own = any(b[k] != a[k] for k in ("expr", "display", "last_op", "_columns")) or \
+                        {k: v for k, v in b["hints"].items() if k != "targets"} != {k: v for k, v in a["hints"].items() if k != "targets"}
+                    wrote[i] = "own" if own else "hints"
+            info["wrote"] = {str(k): v for k, v in wrote.items()}
             info["handles"] = [i for i in range(len(hbefore)) if hbefore[i] != hafter[i]]
             if info["objs"]:
-                i = info["objs"][0]
-                info["diff"] = {k: [before[i][k], after[i][k]] for k in before[i] if before[i][k] != after[i][k]}
+                r = watched[info["objs"][0]]
+                info["diff"] = {k: [before[r][k], after[r][k]] for k in OBS + RAW if before[r][k] != after[r][k]}
+            elif info["internal"]:
+                r = watched[info["internal"][0]]
+                info["idiff"] = {k: [raw_before[r][k], raw_after[r][k]] for k in RAW if raw_before[r][k] != raw_after[r][k]}
             if info["handles"]:
                 i = info["handles"][0]
                 info["hdiff"] = [hbefore[i], hafter[i]]
             out["steps"].append(info)
+
+        n_ev = len(sc["events"])
+        # at the end every object is asked again what it reports: the same as when it was last asked
+        final_snaps: t.Dict[t.Tuple[str, int], dict] = {}
+        final_hints = [hint_state(d) for d in dfs]  # before the derivations below (a join rendered from a hinted DataFrame re-points its hint: H_hint_nodes_private)
+        final_last = [getattr(getattr(d, "last_op", None), "name", None) for d in dfs]
+        for r in refs():
+            sn = snap_df(get(r), det[r])
+            final_snaps[r] = sn
+            for key in OBS:
+                if sn[key] != cache[r][key]:
+                    out["problems"].append({"event": n_ev, "kind": "late", "what": f"{'df' if r[0] == 'm' else 'extra'}{r[1]} reports something else at the end of the scenario than when it was last asked, "
+                                            f"although no call since then moved its own state ({key})", "first": str(cache[r][key]), "second": str(sn[key])})
+                    break
+
         # purity over time: every call, made again on the same receiver after everything else happened, builds the same DataFrame
-        for ei, call, first, det in probes:
-            again = outcome(call, det)
+        for ei, call, first in probes:
+            again = outcome(call)
             if again != first:
-                out["problems"].append({"event": ei, "what": "the same call on the same receiver gives a different result after the later events of the scenario", "first": str(first)[:300], "second": str(again)[:300]})
-        out["final"] = [{"names": list(d.columns), "rows": _rows(d)} for d in dfs]
+                out["problems"].append({"event": ei, "kind": "probe", "what": "the same call on the same receiver gives a different result after the later events of the scenario",
+                                        "first": first if isinstance(first, str) else (first["sql"] if isinstance(again, str) or first["columns"] == again["columns"] else str(first["columns"])),
+                                        "second": again if isinstance(again, str) else (again["sql"] if isinstance(first, str) or first["columns"] == again["columns"] else str(again["columns"]))})
+
+        # fresh twins: the same calls replayed on new objects give DataFrames that report the same, themselves and (for every object
+        # that was the receiver or argument of a call) through standard derivations — whatever happened to the originals in between
+        twins: t.Dict[t.Tuple[str, int], t.Any] = {}
+        thandles: t.Dict[int, t.Any] = {}
+
+        def twin_handle(i: int) -> t.Any:
+            if i not in thandles:
+                ref, n, via = hrecipe[i]
+                d = twin(ref)
+                thandles[i] = d[n] if via == "item" else (getattr(d, n) if via == "attr" else F.col(n))
+            return thandles[i]
+
+        def twin(ref: t.Tuple[str, int]) -> t.Any:
+            if ref in twins:
+                return twins[ref]
+            rc = recipe[ref]
+            if rc[0] == "root":
+                d = X.make_df(s, sc["schema"], sc["rows"])
+            elif rc[0] == "create":
+                f = str.upper if rc[1] == "upper" else str.title
+                d = X.make_df(s, {f(k): v for k, v in sc["schema"].items()}, sc["rows"])
+            else:
+                ev = sc["events"][rc[1]]
+                r = twin(rc[2])
+                if ev["op"] == "transform":
+                    th = [twin_handle(i) if i in ev["hs"] else None for i in range(len(hrecipe))]
+                    d = do_transform(r, ev, th, F)
+                elif ev["op"] == "hint":
+                    d = do_hint(r, ev)
+                elif ev["op"] == "alias":
+                    d = r.alias(ev["name"])
+                else:
+                    d = do_extra(r, twin(rc[3]), ev["which"], F)
+            twins[ref] = d
+            return d
+
+        n_twins = 0
+        for ref in refs():
+            try:
+                tw = twin(ref)
+            except Exception:
+                continue  # what a call does can depend on the session's registries (alias names): not comparable then
+            orig = get(ref)
+            pairs_: t.List[t.Tuple[str, t.Any, t.Any]] = [("itself", {"columns": final_snaps[ref]["columns"], "sql": norm_sql(final_snaps[ref]["sql"])}, outcome(lambda: tw))]
+            if ref in used:
+                for w in SENTINELS:
+                    pairs_.append((w, outcome(lambda: do_sentinel(orig, dfs[0], w, F)), outcome(lambda: do_sentinel(tw, twin(("m", 0)), w, F))))
+            for name, a, b in pairs_:
+                if isinstance(a, str) or isinstance(b, str):
+                    continue
+                n_twins += 1
+                if a != b:
+                    key = "columns" if a["columns"] != b["columns"] else "sql"
+                    out["problems"].append({"event": n_ev, "kind": "twin",
+                                            "what": f"{'df' if ref[0] == 'm' else 'extra'}{ref[1]} ({name}) differs from a freshly built twin of itself ({key})",
+                                            "first": str(a[key]), "second": str(b[key])})
+                    break
+        out["twins"] = n_twins
+        out["final"] = []
+        for i, d in enumerate(dfs):
+            hs = final_hints[i]
+            out["final"].append({"names": list(final_snaps[("m", i)]["columns"]), "hints": hint_comments(final_snaps[("m", i)]["sql"]),
+                                 "pending": hs["pending"], "targets": hs["targets"], "last": final_last[i]})
     except Exception as e:  # noqa
-        out["err"] = f"{type(e).__name__}: {str(e)[:300]}"
+        import traceback
+
+        out["err"] = f"{type(e).__name__}: {str(e)[:300]} @ {traceback.format_exc()[-400:]}"
     return out
 
 
-LAZY_OPS = ("transform", "getItem", "extra", "create")
-LAZY_OBS = ("columns", "sql", "sql_opt")  # read-only observations that must not reach the engine either
+LEAN_OP = {"init": "INIT", "noOp": "NO_OP", "from_": "FROM", "wher": "WHERE", "groupBy": "GROUP_BY", "having": "HAVING", "select": "SELECT", "orderBy": "ORDER_BY", "limit": "LIMIT"}
 
 
-def judge(sc: dict, impl: dict, model: dict) -> t.Tuple[t.List[str], t.List[str]]:
-    fails: t.List[str] = []
+def event_methods(ev: dict) -> t.List[str]:
+    """public members of BaseDataFrame the event calls on its receiver"""
+    if ev["op"] == "transform":
+        k = ev["step"]["k"]
+        return ["where"] if "handle" in ev["step"] else [k]
+    if ev["op"] == "action":
+        return [ACTION_METHOD[ev["which"]]]
+    if ev["op"] == "hint":
+        return [ev["m"]]
+    if ev["op"] == "alias":
+        return ["alias"]
+    return []
+
+
+def judge(sc: dict, impl: dict, model: dict, writes: t.Optional[dict] = None) -> t.Tuple[t.List[dict], t.List[str]]:
+    """failures (implementation vs specification; each with a kind) and mismatches (implementation vs model / generated tables)"""
+    fails: t.List[dict] = []
     mm: t.List[str] = []
     if "err" in impl:
-        return [f"scenario raised outside a follow-up: {impl['err']}"], ["error"]
+        return [{"kind": "error", "text": f"scenario raised outside a follow-up: {impl['err']}"}], ["error"]
     msteps = iter(model["steps"])
+    # once a join has been built (and rendered) from a DataFrame that carries a join hint, the hint's node names a CTE: joins are outside
+    # the Lean alphabet, so what later calls do to that node is no longer the model's to predict (the static table still applies)
+    has_join_hint = any(e["op"] == "hint" and e["name"] in JOIN_HINT_NAMES for e in sc["events"])
+    joined = False
     for ei, (ev, st) in enumerate(zip(sc["events"], impl["steps"])):
         if st["objs"]:
-            fails.append(f"event {ei} ({describe(ev)}) changed pre-existing DataFrame(s) {st['objs']}: {json.dumps(st.get('diff'))[:300]}")
+            fails.append({"kind": "changed", "text": f"event {ei} ({describe(ev)}) changed pre-existing DataFrame(s) {st['objs']}: {json.dumps(st.get('diff'))[:400]}"})
         if st["handles"]:
-            fails.append(f"event {ei} ({describe(ev)}) rewrote Column handle(s) {st['handles']}: {st.get('hdiff')}")
+            fails.append({"kind": "handle", "text": f"event {ei} ({describe(ev)}) rewrote Column handle(s) {st['handles']}: {st.get('hdiff')}"})
         if (ev["op"] in LAZY_OPS or (ev["op"] == "action" and ev["which"] in LAZY_OBS)) and st["engine"] != 0 and not (ev["op"] == "extra" and ev["which"] in ("createOrReplaceTempView",)):
-            fails.append(f"event {ei} ({describe(ev)}) is a transformation but sent {st['engine']} statement(s) to the engine")
-        if ev["op"] not in ("extra", "create") and not (ev["op"] == "action" and ev["which"] in LAZY_OBS):
+            fails.append({"kind": "eager", "text": f"event {ei} ({describe(ev)}) is a transformation but sent {st['engine']} statement(s) to the engine"})
+        if in_model(ev):
             m = next(msteps)
             if st["err"] is None:
                 if m["objs"] != st["objs_model"]:
-                    mm.append(f"event {ei}: model predicts mutated objects {m['objs']}, implementation {st['objs_model']}")
+                    mm.append(f"event {ei} ({describe(ev)}): model predicts changed objects {m['objs']}, implementation {st['objs_model']}")
+                if m["hints"] != st["hints_model"] and not (joined and has_join_hint):
+                    mm.append(f"event {ei} ({describe(ev)}): model predicts changed hint state of objects {m['hints']}, implementation {st['hints_model']}: {json.dumps(st.get('idiff') or st.get('diff'))[:300]}")
                 if m["handles"] != st["handles"]:
                     mm.append(f"event {ei}: model predicts rewritten handles {m['handles']}, implementation {st['handles']}")
                 if (m["engine"] == 0) != (st["engine"] == 0):
-                    mm.append(f"event {ei}: model engine traffic {m['engine']}, implementation {st['engine']}")
+                    mm.append(f"event {ei} ({describe(ev)}): model engine traffic {m['engine']}, implementation {st['engine']}")
+        if ev["op"] == "extra" and ev["which"] in ("join_name", "join_expr", "crossJoin"):
+            joined = True
+        # Gen.Writes against the running code: what the call wrote on its own receiver must be within what the table allows
+        if writes is not None and st["err"] is None:
+            w = st["wrote"].get(str(st["recv"]))
+            for meth in event_methods(ev):
+                allowed = writes["table"].get(meth)
+                if allowed is None:
+                    mm.append(f"event {ei}: member {meth} is not in Gen.Writes.receiverWrites")
+                elif w == "own" and "self" not in allowed:
+                    mm.append(f"event {ei} ({describe(ev)}): the call wrote its receiver's own state, Gen.Writes.receiverWrites allows {allowed} for {meth}")
+                elif w == "hints" and "self.hints" not in allowed and "self" not in allowed:
+                    mm.append(f"event {ei} ({describe(ev)}): the call re-pointed a hint node of its receiver, Gen.Writes.receiverWrites allows {allowed} for {meth}")
     for p in impl["problems"]:
-        fails.append(f"event {p['event']}: {p['what']}")
+        fails.append({"kind": p["kind"], "text": f"event {p['event']}: {p['what']}", "first": p.get("first"), "second": p.get("second")})
+    if "final" in impl and len(impl["final"]) == len(model["final"]):
+        for i, (a, b) in enumerate(zip(impl["final"], model["final"])):
+            outside = any(not in_model(e) and e["op"] != "action" for e in sc["events"])
+            for key in ("hints", "pending") + (() if outside else ("targets",)):
+                if a[key] != b[key]:
+                    mm.append(f"final state of df{i}: {key} is {a[key]} in the implementation, {b[key]} in the model")
+            # (an empty table is built as a one-row frame filtered to nothing: its root is in the WHERE state, not INIT)
+            if sc["rows"] and a["last"] != LEAN_OP.get(b["last"].split(".")[-1]):
+                mm.append(f"final state of df{i}: last_op is {a['last']} in the implementation, {b['last']} in the model")
+    elif "final" in impl:
+        mm.append(f"the implementation made {len(impl['final'])} model objects, the model {len(model['final'])}")
     return fails, mm
 
 
+def only_join_hint_targets(f: dict) -> bool:
+    """is this failure a difference of generated SQL in nothing but what a join hint names?"""
+    if f["kind"] not in ("probe", "twin", "repeat") or not isinstance(f.get("first"), str) or not isinstance(f.get("second"), str):
+        return False
+    a, b = f["first"], f["second"]
+    return a != b and blur_join_hint_targets(a) == blur_join_hint_targets(b) and "/*+" in a
+
+
 def describe(ev: dict) -> str:
+    recv = f"extra[{ev['rx']} mod n]" if ev.get("rx") is not None else f"df{ev['r']}"
     if ev["op"] == "transform":
         return f"df{ev['r']}." + c01.show_step(ev["step"]) + (f" spelled {ev['step'].get('spell')}" if "spell" in ev["step"] else "") + (f" using handle {ev['hs']}" if ev["hs"] else "")
     if ev["op"] == "action":
-        return f"df{ev['r']}.{ev['which']}()"
+        return f"{recv}.{ev['which']}()"
     if ev["op"] == "getItem":
         return f"df{ev['r']}[{ev['n']!r}] via {ev['via']}"
     if ev["op"] == "create":
         return f"createDataFrame(same rows, column names {ev['spell']}-cased)"
-    return (f"extra[{ev['rx']} mod n]" if ev.get("rx") is not None else f"df{ev['r']}") + f".{ev['which']}(df{ev['other']})"
+    if ev["op"] == "hint":
+        return f"{recv}.{ev['m']}({ev['name'].lower() if ev['m'] == 'hint' else ev['n']})"
+    if ev["op"] == "alias":
+        return f"{recv}.alias({ev['name']!r})"
+    return f"{recv}.{ev['which']}(df{ev['other']})"
 
 
 def show_sc(sc: dict) -> str:
     return f"df0 = {list(sc['schema'])}{sc['rows']}; " + "; ".join(describe(e) for e in sc["events"])
 
 
+_WRITES: t.Optional[dict] = None
+
+
+def writes_table() -> t.Optional[dict]:
+    """Gen.Writes' table, recomputed from the same tree (pure `ast`; None when the analysis does not understand the source)"""
+    global _WRITES
+    if _WRITES is None:
+        try:
+            sys.path.insert(0, os.path.join(vlib.VERIF, "tools"))
+            import gen_c04
+
+            _WRITES = gen_c04.writes_table(vlib.REPO)
+        except Exception as e:  # reported by prove() as an untranslatable module
+            vlib.log(f"C04: Gen.Writes table not available: {e}")
+            _WRITES = {}
+    return _WRITES or None
+
+
 def evaluate(scs: t.List[dict], workers: int = 0) -> t.List[dict]:
+    import time
+
+    t0 = time.time()
     outs = vlib.run_driver("C04", [to_lean(i, sc) for i, sc in enumerate(scs)])
+    t1 = time.time()
     impls = vlib.parallel_map(run_impl, scs, workers)
+    if len(scs) > 20:
+        vlib.log(f"C04: driver {t1 - t0:.1f}s, implementation {time.time() - t1:.1f}s for {len(scs)} scenarios")
     res = []
     for sc, o, impl in zip(scs, outs, impls):
         if "err" in o:
             raise RuntimeError(f"driver rejected a scenario: {o}")
-        fails, mm = judge(sc, impl, o)
+        fails, mm = judge(sc, impl, o, writes_table())
         res.append({"case": sc, "impl": impl, "model": o, "fails": fails, "mismatch": mm})
     return res
 
 
-def shrink(sc: dict, rounds: int = 10) -> dict:
-    """drop events that nothing later depends on while the scenario still fails"""
+# ------------------------------------------------------------------------------------------------
+# shrinking: drop events (renumbering what later events refer to), then rows
+# ------------------------------------------------------------------------------------------------
+
+
+def drop_event(sc: dict, i: int) -> t.Optional[dict]:
+    evs = sc["events"]
+    ev = evs[i]
+    k_model = sum(1 for e in evs[:i] if creates_model(e)) + 1 if creates_model(ev) else None  # index of the model object it creates
+    k_handle = sum(1 for e in evs[:i] if e["op"] == "getItem") if ev["op"] == "getItem" else None
+    out = []
+    for j, e in enumerate(evs):
+        if j == i:
+            continue
+        e = json.loads(json.dumps(e))
+        if j > i:
+            if k_model is not None:
+                if e["r"] == k_model or e.get("other") == k_model:
+                    return None  # something later is derived from it
+                if e["r"] > k_model:
+                    e["r"] -= 1
+                if e.get("other", 0) > k_model:
+                    e["other"] -= 1
+            if k_handle is not None and e["op"] == "transform":
+                if k_handle in e["hs"]:
+                    return None
+                e["hs"] = [h - 1 if h > k_handle else h for h in e["hs"]]
+                if "handle" in e["step"] and e["step"]["handle"] > k_handle:
+                    e["step"]["handle"] -= 1
+        out.append(e)
+    return dict(sc, events=out)
+
+
+def shrink(sc: dict, pred: t.Callable[[dict], bool], rounds: int = 14) -> dict:
+    """drop events that nothing later depends on, then rows, while `pred(result)` still holds"""
     best = sc
     for _ in range(rounds):
-        cands = []
-        evs = best["events"]
-        for i in range(len(evs)):
-            # removing a transform/getItem shifts indices: only remove events that create nothing,
-            # or the last creating event
-            ev = evs[i]
-            creates = ev["op"] in ("transform", "getItem")
-            if creates and any(later_uses(evs[j], ev, i, evs) for j in range(i + 1, len(evs))):
-                continue
-            if creates:
-                continue  # keep numbering simple: creators stay
-            cands.append(dict(best, events=evs[:i] + evs[i + 1 :]))
-        if len(evs) > 1:
-            cands.append(dict(best, events=evs[:-1]))
+        cands = [c for c in (drop_event(best, i) for i in reversed(range(len(best["events"])))) if c is not None]
         if not cands:
             break
+        res = evaluate(cands, workers=1)  # in-process: a process that has touched DuckDB must not fork pools
+        nxt = next((r["case"] for r in res if pred(r)), None)
+        if nxt is None:
+            break
+        best = nxt
+    for _ in range(3):
+        cands = [dict(best, rows=best["rows"][:i] + best["rows"][i + 1:]) for i in range(len(best["rows"]))]
+        if not cands or len(best["rows"]) <= 1:
+            break
         res = evaluate(cands, workers=1)
-        nxt = next((r["case"] for r in res if r["fails"]), None)
+        nxt = next((r["case"] for r in res if pred(r)), None)
         if nxt is None:
             break
         best = nxt
     return best
 
 
-def later_uses(later: dict, ev: dict, i: int, evs: list) -> bool:
-    return True
+# ------------------------------------------------------------------------------------------------
+# exercising the generated decisions against the running code
+# ------------------------------------------------------------------------------------------------
 
 
-def run(ctx: Ctx) -> None:
-    idx = vlib.props_index()[ID]
-    vlib.prove(ctx, MODULES, GEN, idx["theorems"], SOURCES)
-    known = {e["id"]: e for e in vlib.known_findings(ID)}
+def gen_flags() -> t.Dict[str, str]:
+    path = os.path.join(vlib.LEAN_DIR, "SqlframeModel", "Gen", "Purity.lean")
+    flags: t.Dict[str, str] = {}
+    if os.path.exists(path):
+        for m in re.finditer(r"^def (\w+) : (?:Bool|Target|DisplayTarget) := \.?(\w+)", open(path, encoding="utf-8").read(), flags=re.M):
+            flags[m.group(1)] = m.group(2)
+    return flags
 
+
+def exercise_gen(_: t.Any = None) -> t.List[str]:
+    """each regenerated decision about hints / limit / copy, observed on the real objects"""
+    from sqlglot import exp
+
+    from sqlframe.duckdb import functions as F
+
+    flags = gen_flags()
+    bad: t.List[str] = []
+    s = sess()
+    base = s.createDataFrame([(1, 2), (3, 4), (5, 6)], ["x", "y"]).where(F.col("x") > 0)
+
+    def tgt(on_self: bool) -> str:
+        return "onSelf" if on_self else "onCopy"
+
+    def check(name: str, observed: str) -> None:
+        if name in flags and flags[name] != observed:
+            bad.append(f"Gen.Purity.{name} = {flags[name]}, the running code shows {observed}")
+
+    # _resolve_pending_hints on a DataFrame with one partition hint
+    d = base.repartition(4)
+    n0 = len(d.pending_hints)
+    w = d._resolve_pending_hints()
+    check("resolveReturns", tgt(w is d))
+    check("resolveRemovesFrom", tgt(len(d.pending_hints) < n0))
+    check("resolveAttachesTo", tgt(d.expression.args.get("hint") is not None))
+    if w is not d:
+        if len(w.pending_hints) >= n0 and len(d.pending_hints) >= n0:
+            bad.append("_resolve_pending_hints removed the partition hint from neither the receiver nor the working copy")
+    # _hint
+    d = base.where(F.col("y") > 0)
+    n0 = len(d.pending_hints)
+    r = d._hint("rebalance", [])
+    check("hintAppendsTo", tgt(len(d.pending_hints) > n0))
+    # limit's body on a receiver that already carries a LIMIT (the decorator hands over the receiver itself)
+    d = base.orderBy("x").limit(5)
+    before = d.expression.sql()
+    r = type(d).limit.__wrapped__(d, 2)
+    check("limitResultOnCopy", str(r is not d).lower())
+    check("limitBuilderCopies", str(d.expression.sql() == before).lower())
+    # copy(): are the hint nodes shared?
+    d = base.hint("broadcast")
+    check("copySharesHintNodes", str(bool(d.pending_hints) and d.copy().pending_hints[0] is d.pending_hints[0]).lower())
+    # alias(): does it re-point the receiver's own join hint?
+    a = base.hint("broadcast")
+    t0 = [x.alias_or_name for h in a.pending_hints if isinstance(h, exp.JoinHint) for x in h.expressions]
+    a.alias("c04_exercise")
+    t1 = [x.alias_or_name for h in a.pending_hints if isinstance(h, exp.JoinHint) for x in h.expressions]
+    if "aliasRewritesHintNode" in flags and "copySharesHintNodes" in flags and "aliasRepointsHintsOf" in flags:
+        predicted = (flags["aliasRewritesHintNode"] == "true" and flags["copySharesHintNodes"] == "true") or flags["aliasRepointsHintsOf"] == "onSelf"
+        if predicted != (t0 != t1):
+            bad.append(f"Gen.Purity predicts alias() {'re-points' if predicted else 'leaves'} the receiver's join hint, the running code {'re-points' if t0 != t1 else 'leaves'} it")
+    return bad
+
+
+# ------------------------------------------------------------------------------------------------
+# the check
+# ------------------------------------------------------------------------------------------------
+
+
+KF_TEXT = ("a pending join hint's node is shared between a DataFrame and its copies; alias() / rendering a join re-points it in place, "
+           "so a later join built from the same DataFrame names something else in its hint")
+
+
+def tr(r: int, step: dict, namer: str = "none", names: t.Optional[list] = None) -> dict:
+    return {"op": "transform", "r": r, "step": step, "namer": namer, "names": names or [], "hs": []}
+
+
+WHERE_X = {"k": "where", "p": ("not", ("isNull", ("col", "x")))}
+ORDER_ALL = {"k": "orderBy", "keys": [{"name": "x", "desc": True, "nullsFirst": False}, {"name": "y", "desc": False, "nullsFirst": True}, {"name": "s", "desc": False, "nullsFirst": True}]}
+
+
+ROOT_SCHEMA = {"x": "int", "y": "int", "s": "str"}
+
+
+def makers(rng: random.Random, thorough: bool = True) -> t.List[t.Tuple[str, t.List[dict], t.Optional[int], dict, dict]]:
+    """(name, events that build the receiver, index among the extras if the receiver is outside the Lean alphabet, the receiver's
+    schema and order state): one receiver per last-operation state and per kind of pending state"""
+    S, N = dict(ROOT_SCHEMA), {"total": False}
+    out: t.List[t.Tuple[str, t.List[dict], t.Optional[int], dict, dict]] = [("root", [], None, S, N)]
+    # ten of the thirteen kinds leave the DataFrame in the SELECT state: the quick tier takes three of them (the seed decides)
+    select_kinds = [k for k in c01.KINDS if k not in ("where", "orderBy", "limit")]
+    kinds = c01.KINDS if thorough else ["where", "orderBy"] + rng.sample(select_kinds, 3)
+    for kind in kinds:
+        if kind == "limit":
+            continue
+        schemas, states = [dict(ROOT_SCHEMA)], [{"total": False}]
+        ev = gen_transform(rng, kind, 0, schemas, states, [])
+        if ev is not None:
+            out.append((kind, [ev], None, schemas[-1], states[-1]))
+    out.append(("orderBy+limit", [tr(0, ORDER_ALL), tr(1, {"k": "limit", "n": 4})], None, S, {"total": True}))
+    out.append(("limit0", [tr(0, {"k": "limit", "n": 0})], None, S, N))
+    for m, name, n in HINTS[:4]:
+        out.append((f"{m}:{name}", [tr(0, WHERE_X), {"op": "hint", "r": 1, "m": m, "name": name, "n": n, "rx": None}], None, S, N))
+    out.append(("select+repartition", [tr(0, {"k": "select", "items": [["x", ("col", "x")], ["y", ("col", "y")]], "spell": ["x", "y"]}, "select", [["x", "x"], ["y", "y"]]),
+                                       {"op": "hint", "r": 1, "m": "repartition", "name": "REPARTITION", "n": 2, "rx": None}], None, {"x": "int", "y": "int"}, N))
+    out.append(("alias", [tr(0, WHERE_X), {"op": "alias", "r": 1, "name": "t1", "rx": None}], None, S, N))
+    for which in ("join_name", "union", "groupBy_agg", "crossJoin", "cache", "unionByName", "x_copy"):
+        out.append((which, [tr(0, WHERE_X), {"op": "extra", "r": 1, "which": which, "other": 0, "rx": None}], 0, S, N))
+    return out
+
+
+CORE_ACTIONS = ("collect", "count", "show1", "head_default", "isEmpty", "toPandas", "columns", "sql", "schema")
+CORE_EXTRA = ("join_name", "union", "groupBy_agg", "x_limit2", "x_copy", "cache", "select_none", "transform")
+
+
+def follow_ups(rng: random.Random, recv: int, schema: dict, state: dict, rx: t.Optional[int]) -> t.List[t.Tuple[dict, bool]]:
+    """every follow-up call of the public API on one receiver; the flag marks the ones the quick tier always runs"""
+    fus: t.List[t.Tuple[dict, bool]] = []
+    if rx is None:
+        for kind in c01.KINDS:
+            for j in range(2 if kind in ("limit", "select", "where") else 1):
+                schemas, states = [dict(schema)] * (recv + 1), [dict(state)] * (recv + 1)
+                ev = gen_transform(rng, kind, recv, schemas, states, [])
+                if ev is not None:
+                    fus.append((ev, j == 0))
+        if state.get("total"):
+            fus += [(tr(recv, {"k": "limit", "n": n}), True) for n in (1, 2, 7)]
+    for i, (m, name, n) in enumerate(HINTS):
+        fus.append(({"op": "hint", "r": recv, "m": m, "name": name, "n": n, "rx": rx}, i < 4))
+    fus.append(({"op": "alias", "r": recv, "name": "t1", "rx": rx}, True))
+    for which in ACTIONS:
+        fus.append(({"op": "action", "r": recv, "which": which, "rx": rx}, which in CORE_ACTIONS))
+    for which in EXTRA:
+        fus.append(({"op": "extra", "r": recv, "which": which, "other": 0, "rx": rx}, which in CORE_EXTRA))
+    return fus
+
+
+def build_scenarios(ctx: Ctx) -> t.List[dict]:
     scs: t.List[dict] = []
     cdir = os.path.join(vlib.VERIF, "corpus", ID)
     if os.path.isdir(cdir):
         for fn in sorted(os.listdir(cdir)):
             if fn.endswith(".json"):
-                scs.append(json.load(open(os.path.join(cdir, fn))))
-    # every (last-operation state x follow-up) pair: a one-step prefix of each kind, then each follow-up
-    for kind in [None] + c01.KINDS:
-        for fu in range(3):
-            sc = gen_scenario(ctx.rng, 0)
-            sch = dict(sc["schema"])
-            if kind:
-                st = c01.gen_step(ctx.rng, kind, sch, {"total": False}, False)
-                if st is None or (st["k"] == "limit" and 0 < st["n"] < c01.BIG):
-                    continue
-                names, namer = [], "none"
-                if st["k"] == "select":
-                    st["spell"] = [n for n, _ in st["items"]]
-                    names, namer = [[n, n] for n, _ in st["items"]], "select"
-                elif st["k"] == "withColumn":
-                    st["spell"], names, namer = st["n"], [[st["n"], st["n"]]], "withColumns"
-                elif st["k"] == "withColumnRenamed":
-                    st["spell"], names, namer = st["b"], [[st["b"], st["b"]]], "withColumnRenamed"
-                sc["events"].append({"op": "transform", "r": 0, "step": st, "namer": namer, "names": names, "hs": []})
-            base = gen_scenario(ctx.rng, 6 if not ctx.thorough else 10)
-            # graft random follow-ups that only address objects that exist
-            nobj = 1 + len([e for e in sc["events"] if e["op"] == "transform"])
-            for ev in base["events"]:
-                ev = dict(ev)
-                ev["r"] = ev["r"] % nobj
-                if "other" in ev:
-                    ev["other"] = ev["other"] % nobj
-                if ev["op"] == "transform":
-                    # recompute against the receiver's schema: regenerate the step
-                    continue
-                if ev["op"] == "getItem":
-                    continue
-                sc["events"].append(ev)
+                scs.append(dict(json.load(open(os.path.join(cdir, fn))), origin="corpus"))
+    # every (receiver state x follow-up) pair: for each receiver (one per last-operation state of the Lean alphabet, per kind of
+    # pending hint, aliased, and results outside the alphabet) every public follow-up, in chunks, each chunk followed by
+    # observations of the receiver
+    chunk = 10
+    for name, mk, mrx, sch, st in makers(ctx.rng, ctx.thorough):
+        base = gen_scenario(ctx.rng, 0)
+        if name == "orderBy+limit":
+            base["rows"] = [[i % 4, i, "a"] for i in range(6)]
+        recv = sum(1 for e in mk if creates_model(e))
+        # quick: the core follow-ups on every receiver, the others with probability 1/5 (the seed decides); thorough: all
+        fus = [e for e, core in follow_ups(ctx.rng, recv, sch, st, mrx) if core or ctx.thorough or ctx.rng.random() < 0.2]
+        ctx.rng.shuffle(fus)
+        for i in range(0, len(fus), chunk):
+            sc = dict(base, events=[json.loads(json.dumps(e, default=list)) for e in mk] + fus[i:i + chunk]
+                      + [{"op": "action", "r": recv, "which": "sql", "rx": mrx}])
+            sc["origin"] = f"state x follow-up: {name}"
             scs.append(sc)
-    for _ in range(600 if ctx.thorough else 60):
+    for _ in range(500 if ctx.thorough else 40):
         scs.append(gen_scenario(ctx.rng, ctx.rng.randint(3, 9)))
-    # every EXTRA follow-up and every action at least once on a WHERE-state receiver (body sees the receiver itself)
-    for which in EXTRA + ACTIONS:
+    # handles taken before a follow-up and used after it, on a WHERE-state receiver (body sees the receiver itself)
+    for which in EXTRA[:: (1 if ctx.thorough else 4)] + ACTIONS[:: (1 if ctx.thorough else 4)]:
         sc = gen_scenario(ctx.rng, 0)
         sc["events"] = [
-            {"op": "transform", "r": 0, "step": {"k": "where", "p": ("not", ("isNull", ("col", "x")))}, "namer": "none", "names": [], "hs": []},
+            tr(0, WHERE_X),
             {"op": "getItem", "r": 1, "n": "x", "via": "item"},
-            ({"op": "extra", "r": 1, "which": which, "other": 0} if which in EXTRA else {"op": "action", "r": 1, "which": which}),
-            {"op": "transform", "r": 1, "step": {"k": "select", "items": [["x", ("col", "x")]], "spell": ["X"]}, "namer": "select", "names": [["x", "X"]], "hs": []},
+            ({"op": "extra", "r": 1, "which": which, "other": 0, "rx": None} if which in EXTRA else {"op": "action", "r": 1, "which": which, "rx": None}),
+            tr(1, {"k": "select", "items": [["x", ("col", "x")]], "spell": ["X"]}, "select", [["x", "X"]]),
             {"op": "transform", "r": 1, "step": {"k": "where", "p": ("not", ("isNull", ("col", "x"))), "handle": 0}, "namer": "none", "names": [], "hs": [0]},
-            {"op": "action", "r": 1, "which": "columns"},
+            {"op": "action", "r": 1, "which": "columns", "rx": None},
         ]
         scs.append(sc)
-
-    # a receiver produced outside the Lean alphabet (alias / hint / join / union / …), then used as the receiver of every
-    # binary follow-up, then observed again
-    for first in ("alias", "hint", "join_name", "union", "crossJoin", "repartition", "cache"):
-        for second in ("join_name", "join_expr", "crossJoin", "union", "unionByName", "intersect", "exceptAll"):
+    # a receiver produced outside the Lean alphabet (join / union / …) or carrying hints / an alias, then used as the receiver of
+    # every binary follow-up, then observed again
+    firsts = [{"op": "alias", "r": 1, "name": "t1", "rx": None}, {"op": "hint", "r": 1, "m": "hint", "name": "BROADCAST", "n": None, "rx": None},
+              {"op": "hint", "r": 1, "m": "repartition", "name": "REPARTITION", "n": 3, "rx": None}] + \
+             [{"op": "extra", "r": 1, "which": w, "other": 1, "rx": None} for w in ("join_name", "union", "crossJoin", "cache")]
+    for first in firsts:
+        seconds = ["join_name", "join_expr", "crossJoin", "union", "unionByName", "intersect", "exceptAll"]
+        for second in (seconds if ctx.thorough else ctx.rng.sample(seconds, 3)):
             sc = gen_scenario(ctx.rng, 0)
+            in_m = first["op"] != "extra"
             sc["events"] = [
-                {"op": "transform", "r": 0, "step": {"k": "where", "p": ("not", ("isNull", ("col", "x")))}, "namer": "none", "names": [], "hs": []},
-                {"op": "extra", "r": 0, "which": first, "other": 1, "rx": None},
-                {"op": "extra", "r": 0, "which": second, "other": 1, "rx": 0},
-                {"op": "extra", "r": 0, "which": second, "other": 0, "rx": 0},
-                {"op": "action", "r": 1, "which": "sql"},
+                tr(0, WHERE_X),
+                dict(first),
+                {"op": "extra", "r": 2 if in_m else 0, "which": second, "other": 1, "rx": None if in_m else 0},
+                {"op": "extra", "r": 2 if in_m else 0, "which": second, "other": 0, "rx": None if in_m else 0},
+                {"op": "action", "r": 1, "which": "sql", "rx": None},
             ]
             scs.append(sc)
     # an aliased DataFrame keeps resolving its alias after a sibling (or it itself again) takes the same alias name
@@ -596,30 +1178,79 @@ def run(ctx: Ctx) -> None:
         for use in ("alias_use", "filter_str", "sort"):
             sc = gen_scenario(ctx.rng, 0)
             sc["events"] = [
-                {"op": "transform", "r": 0, "step": {"k": "where", "p": ("not", ("isNull", ("col", "x")))}, "namer": "none", "names": [], "hs": []},
-                {"op": "extra", "r": 0, "which": "alias", "other": 0, "rx": None},
-                {"op": "extra", "r": 0, "which": "alias_use", "other": 0, "rx": 0},
-                {"op": "extra", "r": 0, "which": use, "other": 0, "rx": 0},
-                {"op": "extra", "r": 1, "which": "alias_other", "other": other, "rx": None},
-                {"op": "action", "r": 1, "which": "columns"},
+                tr(0, WHERE_X),
+                {"op": "alias", "r": 0, "name": "t1", "rx": None},
+                {"op": "extra", "r": 2, "which": "alias_use", "other": 0, "rx": None},
+                {"op": "extra", "r": 2, "which": use, "other": 0, "rx": None},
+                {"op": "alias", "r": other, "name": "t1", "rx": None},
+                {"op": "action", "r": 1, "which": "columns", "rx": None},
             ]
             scs.append(sc)
     for spell in ("upper", "title"):
         sc = gen_scenario(ctx.rng, 0)
-        sc["events"] = [{"op": "action", "r": 0, "which": "columns"}, {"op": "create", "r": 0, "spell": spell}, {"op": "action", "r": 0, "which": "collect"}]
+        sc["events"] = [{"op": "action", "r": 0, "which": "columns", "rx": None}, {"op": "create", "r": 0, "spell": spell}, {"op": "action", "r": 0, "which": "collect", "rx": None}]
         scs.append(sc)
+    return scs
+
+
+def run(ctx: Ctx) -> None:
+    idx = vlib.props_index()[ID]
+    vlib.prove(ctx, MODULES, GEN, idx["theorems"], SOURCES)
+    known = {e["id"]: e for e in vlib.known_findings(ID)}
+    vlib.log(f"C04: proved in {ctx.elapsed():.1f}s")
+    scs = build_scenarios(ctx)
+    n_corpus = sum(1 for sc in scs if sc.get("origin") == "corpus")
 
     res = evaluate(scs)
+    vlib.log(f"C04: {len(scs)} scenarios evaluated at {ctx.elapsed():.1f}s")
+    try:
+        ex_bad = exercise_gen()  # in-process, after the forked workers are done
+    except Exception as e:  # the probes themselves are plain public / helper calls: a failure is a disagreement too
+        ex_bad = [f"the probes of the generated decisions raised {type(e).__name__}: {str(e)[:200]}"]
+    for b in ex_bad:
+        ctx.broken.append("generated decision disagrees with the running code: " + b)
     mism = [r for r in res if r["mismatch"]]
     if mism:
-        ctx.broken.append(f"correspondence stream (mutated-object sets / engine traffic of the implementation vs Impl/C04.lean): {len(mism)} of {len(res)} scenarios differ, e.g. {mism[0]['mismatch'][0]}")
-    viol = [r for r in res if r["fails"]]
+        ctx.broken.append(f"correspondence stream (mutated-object sets / hint state / engine traffic of the implementation vs Impl/C04.lean, written state vs Gen.Writes): {len(mism)} of {len(res)} scenarios differ, e.g. {mism[0]['mismatch'][0]}")
+
+    def other_fails(r: dict) -> t.List[dict]:
+        return [f for f in r["fails"] if not only_join_hint_targets(f)]
+
     reported = 0
+    # failures that are not (only) about what a join hint names: violations
+    viol = [r for r in res if other_fails(r)]
     for r in viol[:3]:
-        sc = shrink(r["case"])
+        sc = shrink(r["case"], lambda x: bool(other_fails(x)))
         rr = evaluate([sc], workers=1)[0]
-        vlib.report_violation(ctx, {"kind": "an existing object changed / a transformation reached the engine / an action is not repeatable", "scenario": show_sc(sc), "case": sc, "failures": rr["fails"], "model_mismatch": rr["mismatch"], "broken": ctx.broken})
+        vlib.report_violation(ctx, {"kind": "an existing object changed / a transformation reached the engine / a call is not repeatable", "scenario": show_sc(sc), "case": sc,
+                                    "failures": [f["text"] for f in rr["fails"]], "details": rr["fails"][:4], "model_mismatch": rr["mismatch"], "broken": ctx.broken})
         reported += 1
+    # failures in which two renderings differ in nothing but what a join hint names: the open finding H_hint_nodes_private, if the scenario
+    # creates a join hint, every failure of it is of that kind, and model and generated tables predict what the implementation did
+    kf_hits = 0
+    ent = known.get("H_hint_nodes_private")
+    for r in [r for r in res if r["fails"] and not other_fails(r)]:
+        sc = r["case"]
+        is_known = (ent is not None and any(e["op"] == "hint" and e["name"] in JOIN_HINT_NAMES for e in sc["events"]) and not r["mismatch"])
+        if is_known:
+            kf_hits += 1
+            vlib.report_known(ctx, ent, KF_TEXT)
+        elif reported < 6:
+            sc = shrink(sc, lambda x: bool(x["fails"]))
+            rr = evaluate([sc], workers=1)[0]
+            vlib.report_violation(ctx, {"kind": "the same program gives two different statements", "scenario": show_sc(sc), "case": sc,
+                                        "failures": [f["text"] for f in rr["fails"]], "details": rr["fails"][:4], "model_mismatch": rr["mismatch"], "broken": ctx.broken})
+            reported += 1
+    # every open known finding's recorded witness is replayed on the real code
+    for ent in known.values():
+        w = ent.get("witness", {}).get("case")
+        if w:
+            rr = evaluate([w], workers=1)[0]
+            if rr["fails"] and all(only_join_hint_targets(f) for f in rr["fails"]):
+                vlib.report_known(ctx, ent, KF_TEXT)
+            elif rr["fails"]:
+                vlib.report_violation(ctx, {"kind": "the recorded witness of a known finding now fails differently", "scenario": show_sc(w), "case": w, "failures": [f["text"] for f in rr["fails"]]})
+                reported += 1
     if ctx.broken and not reported:
         vlib.report_violation(ctx, {"kind": "proof obligation or correspondence no longer checks; no failing input found", "broken": ctx.broken, "searched": {"scenarios": len(res)},
                                     "first_model_mismatch": ({"scenario": show_sc(mism[0]["case"]), "case": mism[0]["case"], "mismatch": mism[0]["mismatch"]} if mism else None)}, no_input=True)
@@ -627,23 +1258,38 @@ def run(ctx: Ctx) -> None:
     ev_hist: t.Dict[str, int] = {}
     n_events = 0
     raised = 0
+    pairs = set()
     for r in res:
+        last: t.Dict[int, str] = {}
         for ev, st in zip(r["case"]["events"], r["impl"].get("steps", [])):
-            key = ev["op"] if ev["op"] in ("getItem", "create") else (ev["step"]["k"] if ev["op"] == "transform" else ev["which"])
+            key = ev["op"] if ev["op"] in ("getItem", "create", "alias") else (ev["step"]["k"] if ev["op"] == "transform" else (ev["m"] + ":" + ev["name"] if ev["op"] == "hint" else ev["which"]))
             ev_hist[key] = ev_hist.get(key, 0) + 1
             n_events += 1
             raised += st.get("err") is not None
+    for r in res:
+        o = r["case"].get("origin")
+        if o:
+            for ev in r["case"]["events"]:
+                pairs.add((o, describe(ev).split("(")[0].split(".")[-1]))
     ctx.cov.update(
         {
             "evaluations": n_events,
             "distinct_nontrivial": len({vlib.digest(r["case"]) for r in res if len(r["case"]["events"]) >= 2}),
-            "rule": "scenarios = sequences of public calls (C01 transformations with re-spelled columns, actions, df[...] handles and their use, and the API outside the Lean alphabet) on any "
-            "existing DataFrame; after EVERY call all pre-existing DataFrames (columns, tree, display map, hints, sql, rows) and handles are compared with their snapshot; statements counted at a proxy connection; "
-            "evaluations = follow-up calls checked; non-trivial = distinct scenarios with >= 2 events",
+            "rule": "scenarios = sequences of public calls (C01 transformations with re-spelled columns and truncating limits after a total order, actions with their "
+            "implicit limits, hints, aliases, df[...] handles and their use, and the API outside the Lean alphabet) on any existing DataFrame; after EVERY call all "
+            "pre-existing DataFrames (tree, display map, hint state, last_op; columns, sql, rows of every object whose state moved, and of all at the end) and handles are compared "
+            "with their last snapshot; every new DataFrame is observed twice; every call is repeated at the end; every DataFrame is compared with a freshly built twin, itself and "
+            "(receivers) through a join / select; statements "
+            "counted at a proxy connection; evaluations = follow-up calls checked; non-trivial = distinct scenarios with >= 2 events",
             "scenarios": len(res),
+            "corpus": n_corpus,
+            "state_x_follow_up_pairs": len(pairs),
             "traces_validated_against_impl": sum(1 for r in res if not r["mismatch"]),
             "follow_ups_that_raised": raised,
+            "twin_comparisons": sum(r["impl"].get("twins", 0) for r in res),
             "internal_only_state_changes": sum(len(st.get("internal", [])) for r in res for st in r["impl"].get("steps", [])),
+            "known_finding_cores": kf_hits,
+            "generated_decisions_exercised": sorted(gen_flags()),
             "event_histogram": ev_hist,
             "samples": [show_sc(r["case"])[:600] for r in res[:: max(1, len(res) // 3)][:3]],
         }
@@ -651,6 +1297,8 @@ def run(ctx: Ctx) -> None:
     ctx.assumptions += [
         "sqlglot builder calls return fresh trees (copy=True); aliasing inside sqlglot trees is not modelled — only the harness' deep snapshots see it",
         "the static call graph is an over-approximation by attribute name (sound for 'cannot reach the engine')",
+        "Gen.Writes (static alias analysis): callee tables for sqlglot / Python containers are stated in tools/c04_alias.py; a receiver-owned node stored into a fresh tree is not tracked",
+        "object_to_dict (sqlglot.helper) copies each attribute with v.copy(): deep for sqlglot trees, shallow for lists (checked on the running objects: copySharesHintNodes)",
     ]
 
 
@@ -660,6 +1308,6 @@ def replay(ctx: Ctx, rp: dict) -> None:
         print("replay names a broken obligation, not an input:", rp.get("broken"))
         return
     r = evaluate([sc], workers=1)[0]
-    print(json.dumps({"scenario": show_sc(sc), "failures": r["fails"], "model_mismatch": r["mismatch"]}, indent=1))
+    print(json.dumps({"scenario": show_sc(sc), "failures": [f["text"] for f in r["fails"]], "details": r["fails"][:4], "model_mismatch": r["mismatch"]}, indent=1, default=str))
     if r["fails"]:
-        vlib.report_violation(ctx, dict(rp, failures=r["fails"]))
+        vlib.report_violation(ctx, dict(rp, failures=[f["text"] for f in r["fails"]]))
